@@ -96,12 +96,14 @@ def check_heading(title_words, phrase, n, sp1, sp2, case):
         import html as _html
         from fractions import Fraction
         from recipe_grid.number_formatting import format_number
-        for k in (1, 2, Fraction(3, 2)):
+        from .c11 import own_format
+        for k in (1, 2, Fraction(3, 2), Fraction(333, 1000), 0.333, 0.666, Fraction(1, 3), 2.5, 1.1):
             page = mr.render(k)
             hm = re.search(r"<h1[^>]*>(.*?)</h1>", page, re.S)
             shown = _html.unescape(re.sub(r"<ul.*?</ul>", "", hm.group(1), flags=re.S)) if hm else ""
             shown = " ".join(_html.unescape(re.sub(r"<[^>]*>", "", shown)).replace("\u2044", "/").split())
-            want = " ".join((title_words + sp1 + ph + sp2 + format_number(n * k)).split())
+            # the count as the documentation displays it, computed independently of the formatter under test where that is possible
+            want = " ".join((title_words + sp1 + ph + sp2 + (own_format(n * k) or format_number(n * k))).split())
             if shown != want:
                 out.append(("C18:heading-text-wrong-when-rendered", "heading %r at scale %r reads %r, expected %r" % (heading, k, shown, want)))
                 break
